@@ -606,7 +606,7 @@ def run(ctx):
     ctx.streams["labels"] = len(LABEL_ORDER)
 
     mmax = 4
-    nmax = 3 if ctx.quick() else 4
+    nmax = 3     # four photons on eight doubled modes in the exact tower cost tens of minutes per request: not worth it
     sampled = set()
 
     def one_sample(stream, ok, d):
